@@ -254,9 +254,9 @@ def RTOKs : List Field → GoVal → Prop
 end
 
 /-- what the recursive call on the nested message does with a rendering -/
-def RecReads (rec : FromRec) (sub : List Field) : Prop :=
+def RecReads (rec : FromRec) (sub : List Field) (P : GoVal → Prop) : Prop :=
   ∀ (s : GoVal) (as : Option (List (String × TfVal))) (ds : List Diag) (hs : List HookCall),
-    rendersFields sub s (as.getD []) = true → RTOKs sub s →
+    rendersFields sub s (as.getD []) = true → P s →
     ∃ o, rec as { obj := .struct [], diags := ds, hooks := hs } = .ok { obj := o, diags := ds, hooks := hs } ∧
       IsStruct o ∧ nfEqFields sub s o = true
 
@@ -304,10 +304,10 @@ theorem setField_setField_same (b : GoVal) (n : String) (x y : GoVal) :
 
 theorem fieldWith_obj (rec : FromRec) (ov : List (String × String)) (info : FieldInfo) (mv : Option FieldInfo)
     (msg : Option MsgInfo) (sub : List Field) (attrs : Option (List (String × TfVal))) (st : FromSt) (a : TfVal) (x : GoVal)
-    (hrec : RecReads rec sub)
+    (P : GoVal → Prop) (hrec : RecReads rec sub P)
     (hk : info.kind = .object) (ho : info.oneOfName = "") (he : info.parentIsOptionalEmbed = false)
     (hem : EmptyOK msg sub) (hvt : vkindOf info.tf.valueType = .obj)
-    (hx : MsgTyped info.isNullable (fun s => RTOKs sub s) x)
+    (hx : MsgTyped info.isNullable P x)
     (hl : (attrs.getD []).lookup info.nameSnake = some a)
     (hr : objRenders info.isNullable (fun o as => rendersFields sub o as) x a = true) :
     WritesField info st (copyFromFieldWith rec ov info mv msg attrs st)
@@ -424,9 +424,9 @@ theorem elemReads_prim (rec : FromRec) (ov : List (String × String)) (info vf :
   | foreign _ => simp [primRenders] at hR
 
 theorem elemReads_obj (rec : FromRec) (ov : List (String × String)) (info vf : FieldInfo) (sub : List Field)
-    (hrec : RecReads rec sub) (hvf : vkindOf vf.tf.elemValueType = .obj)
+    (P : GoVal → Prop) (hrec : RecReads rec sub P) (hvf : vkindOf vf.tf.elemValueType = .obj)
     (hk : info.kind = .objectList ∨ info.kind = .objectMap) :
-    ElemReads (fromElemBody rec ov info vf) (MsgTyped info.isNullable (fun s => RTOKs sub s))
+    ElemReads (fromElemBody rec ov info vf) (MsgTyped info.isNullable P)
       (fun e v => objRenders info.isNullable (fun o as => rendersFields sub o as) e v)
       (fun e y => msgNfEq info.isNullable sub e y) := by
   intro e v ds hs hT hR
@@ -728,7 +728,7 @@ theorem fromField_reads (ov : List (String × String)) : ∀ (f : Field) (obj : 
     simp only at hl hph
     unfold RTOK at hok
     obtain ⟨ho, he, hem, _, hok⟩ := hok
-    have hrec : RecReads (fun as s => copyFromFields ov sub as { s with obj := resetOneOfs ((msg.map (·.oneOfNames)).getD []) s.obj }) sub := by
+    have hrec : RecReads (fun as s => copyFromFields ov sub as { s with obj := resetOneOfs ((msg.map (·.oneOfNames)).getD []) s.obj }) sub (fun s => RTOKs sub s) := by
       intro s as ds hs hR hP
       obtain ⟨o, hrun, hso, hall, _⟩ := fromFields_reads ov sub s as
         { obj := resetOneOfs ((msg.map (·.oneOfNames)).getD []) (.struct []), diags := ds, hooks := hs } hR hP
@@ -748,7 +748,7 @@ theorem fromField_reads (ov : List (String × String)) : ∀ (f : Field) (obj : 
       · exact fieldWith_prim _ ov info mv msg attrs st a _ hk ho he k hrt hvt hx hl hr
     | object =>
       simp only [hk] at hok hr ⊢
-      exact fieldWith_obj _ ov info mv msg sub attrs st a _ hrec hk ho he hem hok.1 hok.2 hl hr
+      exact fieldWith_obj _ ov info mv msg sub attrs st a _ _ hrec hk ho he hem hok.1 hok.2 hl hr
     | primitiveList =>
       simp only [hk] at hok hr ⊢
       obtain ⟨hvt, _, k, hrt, hT⟩ := hok
@@ -757,7 +757,7 @@ theorem fromField_reads (ov : List (String × String)) : ∀ (f : Field) (obj : 
     | objectList =>
       simp only [hk] at hok hr ⊢
       obtain ⟨hvt, hev, hT⟩ := hok
-      exact fieldWith_list _ ov info mv msg attrs st a _ _ _ _ (elemReads_obj _ ov info info sub hrec hev (Or.inl hk))
+      exact fieldWith_list _ ov info mv msg attrs st a _ _ _ _ (elemReads_obj _ ov info info sub _ hrec hev (Or.inl hk))
         (Or.inr hk) ho he hvt hT hl hr
     | primitiveMap =>
       simp only [hk] at hok hr ⊢
@@ -769,7 +769,7 @@ theorem fromField_reads (ov : List (String × String)) : ∀ (f : Field) (obj : 
     | objectMap =>
       simp only [hk] at hok hr ⊢
       obtain ⟨hvt, hev, hnd, hT⟩ := hok
-      exact fieldWith_map _ ov info mv msg attrs st a _ _ _ _ (elemReads_obj _ ov info (mv.getD info) sub hrec hev (Or.inr hk))
+      exact fieldWith_map _ ov info mv msg attrs st a _ _ _ _ (elemReads_obj _ ov info (mv.getD info) sub _ hrec hev (Or.inr hk))
         (Or.inr hk) ho he hvt hnd hT hl hr
     | custom =>
       simp only [hk] at hok
